@@ -93,6 +93,14 @@ impl Config {
 	}
 
 	pub fn get_hook(&self, name: &str) -> Result<Vec<hooks::Hook>, Error> {
+		self.do_get_hook(name, &mut vec![])
+	}
+
+	fn do_get_hook(
+		&self,
+		name: &str,
+		parents: &mut Vec<String>,
+	) -> Result<Vec<hooks::Hook>, Error> {
 		for hook in self.hook.iter() {
 			if name == hook.name {
 				let h = hooks::Hook {
@@ -112,11 +120,16 @@ impl Config {
 		}
 		for grp in self.group.iter() {
 			if name == grp.name {
+				if parents.iter().any(|p| p == name) {
+					return Err(format!("{name}: hook group includes itself").into());
+				}
+				parents.push(name.to_string());
 				let mut ret = vec![];
 				for hook_name in grp.hooks.iter() {
-					let mut h = self.get_hook(hook_name)?;
+					let mut h = self.do_get_hook(hook_name, parents)?;
 					ret.append(&mut h);
 				}
+				parents.pop();
 				return Ok(ret);
 			}
 		}
